@@ -56,6 +56,7 @@ def cases(tier, seed):
     progs = list(G.gen_base(2 if tier == 'quick' else 3))
     for p in G.gen_base(1 if tier == 'quick' else 2):
         progs += [q for q in G.option_deviations(p) if tier == 'thorough' or q['dim'] == 1 or q['head']['kind'] == 'flatlin']
+    progs += G.gen_special()
     for p in progs:
         if G.structure_flags(p):
             continue
